@@ -294,6 +294,79 @@ func canonFloat(f float64) string {
 	return strconv.FormatFloat(f, 'g', -1, 64)
 }
 
+// CanonStrict renders the tree like Canon, but tells an empty list ("[]") from an absent or null
+// setting (an empty dictionary is omitted by the generic Unpack like a null). ok is false when the tree holds a container whose
+// kind the model does not know (emptied after having been both, or mixed).
+func (n *Node) CanonStrict() (string, bool) {
+	var b strings.Builder
+	ok := true
+	n.canonStrict(&b, &ok)
+	return b.String(), ok
+}
+
+func (n *Node) canonStrict(b *strings.Builder, ok *bool) {
+	if n.K != KSub {
+		n.canon(b)
+		return
+	}
+	switch {
+	case len(n.D) > 0 && len(n.A) > 0:
+		*ok = false
+	case len(n.A) > 0:
+		b.WriteString("[")
+		for i, c := range n.A {
+			if i > 0 {
+				b.WriteString(",")
+			}
+			c.canonStrict(b, ok)
+		}
+		b.WriteString("]")
+	case len(n.D) > 0:
+		ents := map[string]string{}
+		for k, c := range n.D {
+			var sb strings.Builder
+			c.canonStrict(&sb, ok)
+			ents[k] = sb.String()
+		}
+		writeMap(b, ents) // (null settings and empty dictionaries do not show in a map)
+	case n.Sticky == 2:
+		b.WriteString("[]")
+	case n.Sticky == 3:
+		*ok = false
+	default:
+		b.WriteString("null")
+	}
+}
+
+// CanonValueStrict is the counterpart of CanonStrict for a generic Go value.
+func CanonValueStrict(v interface{}) string {
+	var b strings.Builder
+	canonValueStrict(&b, v)
+	return b.String()
+}
+
+func canonValueStrict(b *strings.Builder, v interface{}) {
+	switch x := v.(type) {
+	case []interface{}:
+		b.WriteString("[")
+		for i, e := range x {
+			if i > 0 {
+				b.WriteString(",")
+			}
+			canonValueStrict(b, e)
+		}
+		b.WriteString("]")
+	case map[string]interface{}:
+		ents := map[string]string{}
+		for k, e := range x {
+			ents[k] = CanonValueStrict(e)
+		}
+		writeMap(b, ents)
+	default:
+		canonValue(b, v)
+	}
+}
+
 // CanonValue renders a generic Go value as produced by Unpack into interface{}.
 func CanonValue(v interface{}) string {
 	var b strings.Builder
